@@ -351,6 +351,14 @@ Definition optimize_refine_core (fuel : nat) (rnd : nat -> nat) (labels labels_r
           {| r_lr := labels_refined; r_ocw := out_cluster_weights; r_icw := in_cluster_weights;
              r_cw := cluster_weights; r_inc := true; r_draws := 0 |} 0.
 
+(** The generator the kernel carries since fix 0f5490bf (it used libc [rand()] before): an [unsigned int] state, 1 on
+    entry, [draw = draw * 1103515245 + 12345] (modulo 2^32) before each choice, value used [draw >> 16].
+    [leiden_draw k] is the value of the k-th draw of a call; [optimize_refine_core fuel leiden_draw ...] is the kernel
+    as coded (the theorems hold for every stream, this one included). *)
+Definition lcg_step (s : N) : N := N.modulo (s * 1103515245 + 12345) 4294967296.
+Fixpoint lcg_state (k : nat) : N := match k with O => 1%N | S k' => lcg_step (lcg_state k') end.
+Definition leiden_draw (k : nat) : nat := N.to_nat (N.shiftr (lcg_state (S k)) 16).
+
 (** * 5. push.pyx: fuel of [while not worklist.empty()] in [Safety.push_pagerank]
     (n initial entries — the argsort answer — plus at most one later push per node). *)
 Definition push_fuel (n : nat) : nat := 2 * n.
